@@ -40,6 +40,7 @@ def run(ctx):
         ctx.rule("R-C10-FINAL", "finalize() and reset() report the same pending-byte count from every decoder state (what the reader "
                  "front-ends attach to an I/O error / EOF equals what the iterator front-ends report as trailing DiscardedBytes)")
         check_final_reset(ctx, A, F, an, "R-C10-FINAL")
+        ctx.include("C17", "'reports noise only as discarded byte counts': the counts the reader and the decoder report are exact (byte accounting)")
     except (AnchorMissing, Unsupported, KeyError) as e:
         ctx.violation("ANCHOR-MISSING", "reader", ("", 0, ""), "%s: %s" % (type(e).__name__, e))
     ctx.assumptions = [ASSUMPTIONS[k] for k in ("A1", "A2", "A4", "A6")]
